@@ -27,7 +27,7 @@ def _stub(pid, text, declined=""):
 
 _stub("C20", "Decides structural clauses of C20: configuration schema agreement (R20a = R10a), every option has a consumer "
              "reaching its documented sink, the colour-format registry is total, shared intermediates are keyed by everything "
-             "that parametrises them, per-configuration file namespace is injective. Does NOT decide that ufo2ft writes the "
+             "that parametrises them, per-configuration file namespace is injective, an intermediate's path depends on every argument of its dest function, the resolved configuration is re-written on every invocation. Does NOT decide that ufo2ft writes the "
              "info fields into the named binary tables.",
       "binary table contents (ufo2ft/fontTools)")
 
@@ -59,9 +59,9 @@ _stub("C09", "Decides structural clauses of C09 on a static model of the ninja g
       "convergence over edit/crash histories; ninja log/mtime semantics; partial files left by killed steps")
 
 _stub("C17", "Decides structural clauses of C17: a uniqueness check keyed on the glyph name and one keyed on the codepoint sequence "
-             "(seen-set / len(set) / Counter idioms) raises on the path write_font.main -> ColorGlyph.create; each raise site the "
+             "(seen-set / len(set) / Counter idioms, keyed on that attribute alone) raises on the path write_font.main -> ColorGlyph.create; each raise site the "
              "property relies on (bad colour, unknown spreadMethod, palette conflict, parse failure, missing file, oversize bitmap, "
-             "master mismatch, missing viewBox) exists, is reachable, is not guarded by a constant and is not caught without re-raise "
+             "master mismatch in either direction, missing viewBox) exists, is reachable, is not guarded by a constant and is not caught without re-raise "
              "on any resolved call path; failures propagate to the exit status (R09d) and font files are written last (R09e). Does "
              "NOT decide that picosvg rejects every unsupported construct, nor what ninja does with the exit status.",
       "picosvg's own input validation; exit-status handling inside ninja")
@@ -80,7 +80,7 @@ _stub("C18", "Decides structural clauses of C18: each master's UFO edge is built
              "master's glyphmap and config file, with sources redirected to the build's picosvgs, one edge per master, and the "
              "variable-font edge depends on every UFO; in the designspace assembly the UFO, style name, source name and location of a "
              "source all derive from the same loop binder, location keys go through axisTag -> name, axis minimum/maximum aggregate "
-             "positions filtered on the same tag, default comes from the axis; validation rejects bitmap / OT-SVG multi-master configs "
+             "positions filtered on the same tag, default comes from the axis; positions and defaults are not truncated or rounded on loading; validation rejects bitmap / OT-SVG multi-master configs "
              "and a missing default master. Does NOT decide interpolation, gvar/HVAR/VarStore content or variable clip boxes (ufo2ft).",
       "interpolation and all variation data (ufo2ft/fontTools.varLib)")
 
@@ -122,7 +122,7 @@ _stub("C06", "Decides structural clauses of C06: coordinate-space typing of both
       "reuse-on == reuse-off equality of rendered glyphs; accuracy of picosvg.affine_between / normalize")
 _stub("C19", "Decides structural clauses of C19: the path looked up for reuse is the path inserted, every new outline is registered, "
              "look-up and insertion normalise with one tolerance derived from the configuration, one font-wide cache; the reuse wrapper "
-             "/ <use> is produced whenever a donor exists unless the transform overflows; try_reuse gives up for exactly four reasons "
+             "/ <use> is produced whenever a donor exists unless the transform overflows (a found donor is never discarded, a transformed COLRv0 copy is always a component of the shared outline); try_reuse gives up for exactly four reasons "
              "(disabled, no donor, no affine, overflow); reuse is disabled only by a negative tolerance. Does NOT decide that picosvg's "
              "normalisation identifies all isometric copies.",
       "completeness of picosvg's congruence detection")
@@ -169,7 +169,7 @@ _stub("C14", "Decides structural clauses of C14: dimension typing (px, fu, px/em
              "fontTools' packing.",
       "the +-1/+-2 pixel placement bounds; fontTools' CBDT/sbix packing")
 _stub("C15", "Decides structural clauses of C15: the normalisation applied when the palette is built equals the one applied at every "
-             "look-up (v0: unmodified, v1: opaque with alpha carried by the paint/stop), the same list is written to CPAL; the "
+             "look-up (v0: unmodified, v1: opaque with alpha carried by the paint/stop; opaque() changes alpha only), the same list is written to CPAL; the "
              "foreground colour is excluded by the predicate index_from short-circuits on (0xFFFF); conflicting explicit indices raise, "
              "the palette is never empty, the slot count and fill discipline place indexed colours at their own index and assert every "
              "colour was placed; iteration is over a sorted sequence. Does NOT decide the slot-filling arithmetic for all colour sets "
